@@ -1,5 +1,6 @@
 //! Engine W driver: `worldsim <C12|C14|C16|C09> [--tier ..] [--seed ..]` and `worldsim replay <file>`.
 
+mod c09;
 mod c12;
 mod c14;
 mod c16;
@@ -11,6 +12,7 @@ fn main() {
         Some("C12") => c12::main(&args),
         Some("C16") => c16::main(&args),
         Some("C14") => c14::main(&args),
+        Some("C09") => c09::main(&args),
         Some("replay") => {
             let Some(path) = args.get(2) else { simcore::harness_error("usage: worldsim replay <file>") };
             let text = std::fs::read_to_string(path).unwrap_or_else(|e| simcore::harness_error(&format!("read {path}: {e}")));
@@ -20,6 +22,7 @@ fn main() {
                 Some("C12") => c12::replay(&doc, path),
                 Some("C16") => c16::replay(&doc, path),
                 Some("C14") => c14::replay(&doc, path),
+                Some("C09") => c09::replay(&doc, path),
                 other => simcore::harness_error(&format!("unknown check in replay file: {other:?}")),
             }
         }
